@@ -65,6 +65,9 @@ CHECKS = {
  "C15": dict(engine="net", technique="stateful property-based testing in real time: generated connection histories against the real TCP server task, FIFO-eviction session model, sentinel/EOF probes after every step",
              text="Generated histories of connects, closes, requests, malformed headers, split requests, decode-level changes, shutdown and handle drop with max_sessions 0..4; after every step every connection is probed and must be served or closed exactly as the FIFO-eviction model says.",
              ref="DESIGN.md section 4 C15", note="Trusted base: the session model, loopback TCP, settling delays (failing histories are re-run with 2x/4x delays). TLS servers share the same session tracker code and are not separately exercised here."),
+ "C09": dict(engine="net", technique="exhaustive enumeration of the TLS configuration grid (finite domain) with generated-peer handshakes against a truth-table oracle",
+             text="All 252 cells of {min version} x {certificate mode} x {authz} x {role of rodbus} x {versions the peer offers} x {peer certificate variant} are exercised with real handshakes over loopback against rustls peers the harness configures itself (pinned versions, no validation of their own); served/refused, negotiated version, role string seen by the authorization handler and a plaintext probe are compared with the truth table.",
+             ref="DESIGN.md section 4 C09", note="Trusted base: the truth table, the committed test PKI (tools/mkcerts.sh, fixed-date expired / not-yet-valid certificates), rustls as the peer implementation. Certificates with two role extensions are not in the grid (openssl cannot mint them)."),
 }
 
 NOT_YET = {
